@@ -54,9 +54,57 @@ def removes_element(w, letter):
     return None
 
 
+def ghost_explanation(w2, perms, ever_counted, live, objs, ranks):
+    """Structural identification of the recorded ghost-traffic finding: usage patterns that were removed from the
+    system still reference their journey / network / country, and the live model keeps counting their traffic.
+    Returns 'removed-usage-pattern-still-counted' when the live values of every object other than the System itself
+    are exactly those of a fresh model in which the removed patterns are still listed; else None."""
+    sysname = w2["system"]
+    final = w2["objects"][sysname]["attrs"]["usage_patterns"][1]
+    dangling = [p for p in ever_counted if p not in final and p in w2["objects"]]
+    if not dangling:
+        return None
+    import copy
+    w3 = copy.deepcopy(w2)
+    w3["objects"][sysname]["attrs"]["usage_patterns"] = ["list", list(final) + dangling]
+    fr3 = fresh_snapshot(w3, perms)
+    boot.set_ranks(ranks)       # the fresh build installed its own rank table
+    if fr3[0] != "ok":
+        return None
+    system_names = {o.name for o in objs if type(o).__name__ == "System"}
+    live_names = {o.name for o in objs}
+    rest = [k for k, a, b in S.diff(live, fr3[1], empty_entries_neutral=True)
+            if isinstance(k, tuple) and k[0] in live_names and k[0] not in system_names]
+    return None if rest else "removed-usage-pattern-still-counted"
+
+
 def totals(system):
     return (S.canon(system.total_energy_footprint_sum_over_period),
             S.canon(system.total_fabrication_footprint_sum_over_period))
+
+
+def physically_noop(w, letter):
+    """A letter that assigns to every input it touches the physical value that input already has (300 kB over 0.3 MB):
+    the library skips such an update ("updated to itself"), it is not an edit and the reference totals stay."""
+    parts = letter[1] if letter[0] == "multi" else [letter]
+    for e in parts:
+        if e[0] != "set":
+            return False
+        cur, new = w["objects"][e[1]]["attrs"].get(e[2]), e[3]
+        if cur is None or cur[0] != new[0] or new[0] not in ("q", "h"):
+            return False
+        try:
+            a, b = W.mkval(cur), W.mkval(new)
+            if new[0] == "q":
+                same = bool(a.value == b.value)
+            else:
+                same = bool(a.value.index.equals(b.value.index)) and bool(
+                    (a.value["value"].values.quantity == b.value["value"].values.quantity).all())
+        except Exception:  # noqa
+            return False
+        if not same:
+            return False
+    return True
 
 
 def run_task(task):
@@ -65,9 +113,12 @@ def run_task(task):
     m = W.build(w, perms=perms)
     system = m.system
     init_tot = totals(system)
+    sysname = w["system"]
+    ever_counted = list(w["objects"][sysname]["attrs"]["usage_patterns"][1])
     for e in task.get("history", []):
         w = W.apply_spec(w, e)
         W.apply_live(m, e)
+        ever_counted += [p for p in w["objects"][sysname]["attrs"]["usage_patterns"][1] if p not in ever_counted]
     letter = task.get("letter")
     res = {"violations": [], "counters": {}}
     pre_tot = totals(system)
@@ -111,11 +162,12 @@ def run_task(task):
         first_ca = S.class_attr(o, first[0][1]) if o is not None else f"?.{first[0][1]}"
         res["violations"].append({
             "sig": {"clause": "value-eq-fresh", "letter": lc, "first_divergent": first_ca,
-                    "removes_element": removes_element(w, letter)},
+                    "removes_element": removes_element(w, letter),
+                    "explained_by": ghost_explanation(w2, perms, ever_counted, live, objs, m.ranks)},
             "detail": {"n_divergent": len(d), "first": [list(first[0]), first[1], first[2]],
                        "all_divergent_attrs": sorted({f"{k[0]}.{k[1]}" for k, _, _ in d})[:40]}})
     # reference totals
-    if letter is not None and W.canon_world(w2) != W.canon_world(w):
+    if letter is not None and W.canon_world(w2) != W.canon_world(w) and not physically_noop(w, letter):
         prev = (S.canon(system.previous_total_energy_footprints_sum_over_period),
                 S.canon(system.previous_total_fabrication_footprints_sum_over_period))
         for name, a, b in (("energy", prev[0], pre_tot[0]), ("fabrication", prev[1], pre_tot[1])):
